@@ -116,8 +116,16 @@ def _field(i, n):
     return 'mid'
 
 
-def _check(res, name, m, x, dev):
+def _check(res, name, m, x, dev, same_as=None):
     o = outcome(m.validate, x)
+    if o[0] == 'ok' and isinstance(o[1], str) and same_as is not None and o[1].isascii():
+        # a character that carries the same value was translated: the number must be the one that the ASCII
+        # spelling denotes (a digit is produced only from a character with that decimal value)
+        ref = outcome(m.validate, same_as)
+        if ref[0] == 'ok' and ref[1] != o[1]:
+            res.viol(ID, 'translated-to-another-value', name, 'validate', {'module': name, 'number': x, 'devclass': dev[1], 'ascii': same_as},
+                     'validate(%r) returned %r but the ASCII spelling %r gives %r' % (x, o[1], same_as, ref[1]),
+                     'same canonical number', devclass=dev[1], rank=[dev[0], len(x), x])
     if o[0] == 'ok' and isinstance(o[1], str):
         if not o[1].isascii() and not all(c.isascii() or c in NATIONAL_LETTERS.get(name, '') for c in o[1]):
             res.viol(ID, 'non-ascii-result', name, 'validate', {'module': name, 'number': x, 'devclass': dev[1]},
@@ -178,7 +186,8 @@ def work(item):
                     continue
                 seen.add(x)
                 n += 1
-                acc += _check(res, name, m, x, (1, 'sub:%s@%s' % (class_of(c), _field(i, ln)), v))
+                acc += _check(res, name, m, x, (1, 'sub:%s@%s' % (class_of(c), _field(i, ln)), v),
+                              same_as=v if unicodedata.decimal(c, None) is not None and str(unicodedata.decimal(c)) == ch else None)
     res['extra']['e2_valid_numbers'] = len(values)
     # ride on the E1 states too (other classes, short strings)
     states, transitions, _sv = e1.module_states(name, 'quick', nseeds=2)
@@ -203,5 +212,5 @@ def work(item):
 def replay(case):
     m = core.modules()[case['module']]
     res = Result()
-    _check(res, case['module'], m, case['number'], (0, case.get('devclass', ''), ''))
+    _check(res, case['module'], m, case['number'], (0, case.get('devclass', ''), ''), same_as=case.get('ascii'))
     return res['violations']
